@@ -6,6 +6,7 @@
    nothing inside a value looked at). Sources know $G<n> and $MTX_QUERY, destinations $G<n> and $MTX_PATH. *)
 From Coq Require Import List ZArith Bool.
 Require Import MTX.Model.C42_Template MTX.Proofs.C42_Template.
+Require Import MTX.Model.C42_Life MTX.Proofs.C42_Life.
 Import ListNotations.
 Local Open Scope Z_scope.
 
@@ -77,6 +78,126 @@ Print Assumptions C42_multidigit_dest.
 Theorem C42_dollar_freeb : forall s, dollar_freeb s = true -> dollar_free s.
 Proof. exact dollar_freeb_spec. Qed.
 Print Assumptions C42_dollar_freeb.
+
+(* ------------------------------------------------------------------------------------------------
+   Life cycle of the substituted values of one live path (Model/C42_Life.v): the forward destinations
+   (forward.Manager), the static source (staticsources.Handler) and the hook environment (path.ExternalCmdEnv),
+   under ANY history `ops` of hot reloads - each may replace the forward list and, when the path moved to
+   another regexp configuration, the capture groups (more, fewer or other groups) -, of the stream coming and
+   going, and of the source being started with a query, stopped, failing and being retried.
+   cur_ms / cur_fwd: the groups and the forward list handed in last (read off the history, no model involved). *)
+
+(* every destination handler has the configuration at its position, and connects to the substitution of that
+   template with the groups that are current - never with the groups of an earlier configuration *)
+Theorem C42_life_forward : forall name ms0 fwd0 tmpl ops,
+  let s := run (init name ms0 fwd0 tmpl) ops in
+  map (fun h => (fh_conf h, held name h)) (p_hs s) =
+  map (fun d => (d, resolve_dest (d_dest d) name (cur_ms ms0 ops))) (cur_fwd fwd0 ops).
+Proof. exact life_forward. Qed.
+Print Assumptions C42_life_forward.
+
+(* with the template theorem: inside the guard that value is the single left-to-right pass over the current groups *)
+Theorem C42_life_forward_single_pass : forall name ms0 fwd0 tmpl ops i h,
+  let s := run (init name ms0 fwd0 tmpl) ops in
+  let ms := cur_ms ms0 ops in
+  nth_error (p_hs s) i = Some h ->
+  template_ok (dst_cfg ms) (d_dest (fh_conf h)) = true -> dollar_free name -> Forall dollar_free ms ->
+  nth_error (cur_fwd fwd0 ops) i = Some (fh_conf h) /\
+  held name h = single_pass_dest (d_dest (fh_conf h)) name ms.
+Proof. exact life_forward_single_pass. Qed.
+Print Assumptions C42_life_forward_single_pass.
+
+(* The same for every test that ReloadConf could use to decide that a handler is kept, provided the test is sound:
+   a kept handler has the configuration asked for and resolves to what a new handler would resolve to.
+   The code's test (equal configuration and equal groups) is sound. *)
+Theorem C42_life_forward_any_sound_test : forall name keep, keep_sound name keep ->
+  forall ms0 fwd0 tmpl ops,
+  let s := run_with keep (init name ms0 fwd0 tmpl) ops in
+  map (fun h => (fh_conf h, held name h)) (p_hs s) =
+  map (fun d => (d, resolve_dest (d_dest d) name (cur_ms ms0 ops))) (cur_fwd fwd0 ops).
+Proof. exact life_forward_any_keep. Qed.
+Print Assumptions C42_life_forward_any_sound_test.
+
+Theorem C42_life_code_test_sound : forall name, keep_sound name keep_code.
+Proof. exact keep_code_sound. Qed.
+Print Assumptions C42_life_code_test_sound.
+
+(* A test that only looks at the group indices of the OLD groups (restart when a group named by the template
+   changed, for i = len(old)-1 .. 1) is not sound: cam_front under ~^(cam)_front$ then ~^(cam)_(front)$ with the
+   destination /$G1/$G2 keeps /cam/$G2 where the current substitution is /cam/front (inside the guard). *)
+Theorem C42_life_old_index_test_refuted :
+  let s := run_with keep_old_index (init w_name w_ms1 [w_dest] None) [OReload (Some w_ms2) [w_dest]] in
+  map (held w_name) (p_hs s) = [[47; 99;97;109; 47; 36;71;50]] /\
+  resolve_dest (d_dest w_dest) w_name w_ms2 = [47; 99;97;109; 47; 102;114;111;110;116] /\
+  template_ok (dst_cfg w_ms2) (d_dest w_dest) = true /\ ~ keep_sound w_name keep_old_index.
+Proof. exact old_index_keep_refuted. Qed.
+Print Assumptions C42_life_old_index_test_refuted.
+
+(* nothing is restarted without need: an unchanged destination under unchanged groups keeps its handler *)
+Theorem C42_life_forward_keeps : forall name ms0 fwd0 tmpl ops oms fwd i h,
+  let s := run (init name ms0 fwd0 tmpl) ops in
+  nth_error (p_hs s) i = Some h -> nth_error fwd i = Some (fh_conf h) ->
+  (oms = None \/ oms = Some (cur_ms ms0 ops)) ->
+  (forall h', In h' (p_hs s) -> fh_ms h' = p_fm_ms s) ->
+  nth_error (p_hs (fst (step s (OReload oms fwd)))) i = Some h.
+Proof. exact life_forward_keeps. Qed.
+Print Assumptions C42_life_forward_keeps.
+
+Theorem C42_life_handlers_carry_groups : forall name ms0 fwd0 tmpl ops h,
+  let s := run (init name ms0 fwd0 tmpl) ops in
+  In h (p_hs s) -> fh_ms h = p_fm_ms s /\ p_fm_ms s = cur_ms ms0 ops.
+Proof. exact life_handlers_carry_groups. Qed.
+Print Assumptions C42_life_handlers_carry_groups.
+
+(* the static source: the handler always has the current groups (so every later start or retry resolves with
+   them), and an instance that is running was given the substitution of the source template with the current
+   groups and the query it was started with (a reload that changes the resolved URL restarts the instance) *)
+Theorem C42_life_source : forall name ms0 fwd0 t ops x,
+  p_src (run (init name ms0 fwd0 (Some t)) ops) = Some x ->
+  s_tmpl x = t /\ s_ms x = cur_ms ms0 ops /\
+  (s_running x && s_alive x = true -> s_cur x = resolve_source t (cur_ms ms0 ops) (s_query x)).
+Proof. exact life_source. Qed.
+Print Assumptions C42_life_source.
+
+Theorem C42_life_source_events : forall name ms0 fwd0 t ops o s' evs,
+  step (run (init name ms0 fwd0 (Some t)) ops) o = (s', evs) ->
+  Forall (fun v => v = resolve_source t (cur_ms ms0 (ops ++ [o])) (ev_query s')) evs.
+Proof. exact life_source_events. Qed.
+Print Assumptions C42_life_source_events.
+
+Theorem C42_life_source_single_pass : forall name ms0 fwd0 t ops x,
+  p_src (run (init name ms0 fwd0 (Some t)) ops) = Some x ->
+  s_running x && s_alive x = true ->
+  template_ok (src_cfg (cur_ms ms0 ops)) t = true -> Forall dollar_free (cur_ms ms0 ops) ->
+  s_cur x = single_pass_source t (cur_ms ms0 ops) (s_query x).
+Proof. exact life_source_single_pass. Qed.
+Print Assumptions C42_life_source_single_pass.
+
+(* the hook environment computed at any later launch: exactly G1..Gn of the current groups *)
+Theorem C42_life_env : forall name ms0 fwd0 tmpl ops,
+  let ms := cur_ms ms0 ops in
+  let env := hook_env (p_ms (run (init name ms0 fwd0 tmpl) ops)) in
+  length env = (length ms - 1)%nat /\
+  forall k, (1 <= k <= length ms - 1)%nat -> nth_error env (k - 1) = Some (Z.of_nat k, nth k ms []).
+Proof. exact life_env. Qed.
+Print Assumptions C42_life_env.
+
+(* non-vacuity: a history with more, then fewer groups, a changed forward list, and a source that is started,
+   reloaded while running (restarted with the new URL), stopped and started again *)
+Example C42_life_example :
+  let g := fun l : list bytes => w_name :: l in
+  let d2 := {| d_dest := [36;71;50; 45; 36;77;84;88;95;80;65;84;72]; d_fp := []; d_tok := [] |} in   (* $G2-$MTX_PATH *)
+  let t := [36;71;49; 47; 36;71;50; 63; 36;77;84;88;95;81;85;69;82;89] in                             (* $G1/$G2?$MTX_QUERY *)
+  let ops := [OSrcStart [113]; OReload (Some w_ms2) [w_dest; d2]; OFwdStart; OSrcStop;
+              OReload (Some (g [[99]])) [w_dest; d2]; OSrcStart [114]; OReload None [d2]] in
+  let s := run (init w_name w_ms1 [w_dest] (Some t)) ops in
+  map (fun h => (fh_id h, held w_name h)) (p_hs s) =
+    [(5, [36;71;50; 45; 99;97;109;95;102;114;111;110;116])] /\                                          (* $G2-cam_front *)
+  option_map s_cur (p_src s) = Some [99; 47; 36;71;50; 63; 114] /\                                    (* c/$G2?r *)
+  snd (step (run (init w_name w_ms1 [w_dest] (Some t)) [OSrcStart [113]]) (OReload (Some w_ms2) [w_dest; d2])) =
+    [[99;97;109; 47; 102;114;111;110;116; 63; 113]] /\                                                 (* cam/front?q *)
+  hook_env (p_ms s) = [(1, [99])].
+Proof. vm_compute. repeat split. Qed.
 
 (* non-vacuity: rtsp://h/$G1/$G12?$MTX_QUERY with 12 groups is inside the guard *)
 Example C42_example :
